@@ -44,6 +44,11 @@ CHECKS = {
     text="The cache is modelled as key -> identity of the computation that produced the entry; TLC shows every value read is what a fresh computation would produce for all histories of <=3 queries (n<=6, 5 metrics) and emits each history with the structure of every answer (contributing segments, divisor n+|S|-2, normalisation). The harness replays each history on 3 curves with one shared dict and with fresh caches (bit-identity), compares values with the exact-fraction evaluation of the definition, global RMSE with point-wise interpolation RMSE and MIP with its median definition; random longer histories on float curves are consumed query by query by Trace_GlobalCost.",
     note="real arithmetic of the definition is evaluated by harness/costdef.py (trusted, exact fractions, eps exact); 0/eps ill-conditioned points classed ambiguous; dict key layout mismatches are DRIFT notes, not violations",
     ref="5/C15"),
+ "C02": dict(
+    technique="TLC model checking of the multi_knee recursion machine against the recursive decomposition MKSet for every detector/gate oracle (negative instance: detector may return the last index) + TLC-generated recursion trees replayed through the public wrapper with synthetic detectors + TLC trace validation of the 5 bundled detectors with K/C tables",
+    text="MultiKnee.tla mirrors the stack loop of multi_knee.multi_knee; TLC proves termination, pop bound, ordering, range, interiority and result = MKSet(0,n) for every oracle up to n=9, and emits every recursion tree (n<=7/8) which is replayed through multi_knee.multi_knee with a synthetic detector answering from the tree's table (answers 0, len-2, None included). For curvature, DFDT, Menger, L-method and Kneedle the recorded multi_knee result is judged by Trace_MultiKnee against MKSet over tables K[l][r]=<detector>.knee(points[l:r]) and the bit-exact gate table.",
+    note="n<=16 for real detectors (all slices tabulated); gate relative to lf.smape_points; uts dependency trusted",
+    ref="5/C02"),
 }
 
 PENDING = {}
